@@ -377,7 +377,7 @@ REC_TPLS = [   # (templates, line of the recursive construct in t0)
     (["{% import 't0' as x %}"], 1), (["{% from 't0' import y %}"], 1), (["a\n\n{% import 't0' as x %}"], 3), (["a{{ 1 }}\n{% from 't0' import y %}"], 2),
     (["{% include 't0' %}"], 1), (["x\n{% include 't1' %}", "\n{% import 't0' as q %}"], None), (["{% macro m() %}{{ m() }}{% endmacro %}\n{{ m() }}"], None),
     (["\n{% for x in [[[[[[[[[[[[]]]]]]]]]]]] recursive %}{{ loop(x) }}\n{% endfor %}"], None),
-    (["{% set ns = namespace() %}\n{% with a = 1 %}{% with b = 2 %}\n{% import 't0' as x %}{% endwith %}{% endwith %}"], 3),
+    (["{% set ns = namespace() %}\n{% with a = 1 %}{% with b = 2 %}\n{% import 't0' as x %}{% endwith %}{% endwith %}"], None),   # (the limit may also trip on a {% with %} of line 2)
 ]
 
 
